@@ -27,8 +27,9 @@ func TestC43Ping(t *testing.T) {
 			deadline time.Duration // caller deadline after the ping was issued
 			// pongs the peer sends, relative to ping arrival
 			pongs []struct {
-				after time.Duration
-				kind  string // own | other | random | dup
+				after  time.Duration
+				kind   string // own | other | random | dup
+				copies int    // > 1: the pong is repeated inside one container (server retransmission batched with the original)
 			}
 		}
 		plans := make([]pingPlan, npings)
@@ -39,10 +40,12 @@ func TestC43Ping(t *testing.T) {
 			for j := 0; j < n; j++ {
 				after := time.Duration(rapid.IntRange(0, 25_000).Draw(t, "afterMs"))*time.Millisecond + time.Duration(j+1)
 				kind := rapid.SampledFrom([]string{"own", "own", "other", "random", "dup"}).Draw(t, "kind")
+				copies := rapid.SampledFrom([]int{1, 1, 1, 2, 3}).Draw(t, "copies")
 				plans[i].pongs = append(plans[i].pongs, struct {
-					after time.Duration
-					kind  string
-				}{after, kind})
+					after  time.Duration
+					kind   string
+					copies int
+				}{after, kind, copies})
 			}
 		}
 		rapid.SyncTest(t, func(t *rapid.T) {
@@ -85,14 +88,15 @@ func TestC43Ping(t *testing.T) {
 			// need to: plan i is applied to ping id i; the oracle is evaluated per id
 			// and matched to callers through the multiset of outcomes.
 			type ev struct {
-				at   time.Duration
-				ping int
-				kind string
+				at     time.Duration
+				ping   int
+				kind   string
+				copies int
 			}
 			var evs []ev
 			for i, p := range plans {
 				for _, pg := range p.pongs {
-					evs = append(evs, ev{pg.after, i, pg.kind})
+					evs = append(evs, ev{pg.after, i, pg.kind, pg.copies})
 				}
 			}
 			sort.SliceStable(evs, func(i, j int) bool { return evs[i].at < evs[j].at })
@@ -128,7 +132,19 @@ func TestC43Ping(t *testing.T) {
 					id = int64(rnd.Uint64()) | 1<<40
 					classes["random-pong"] = true
 				}
-				if err := f.peer.Send(f.peer.NextID(1), 0, pbt.Pong(pingMsgIDs[e.ping], id)); err != nil {
+				body := pbt.Pong(pingMsgIDs[e.ping], id)
+				if e.copies > 1 {
+					// the same pong several times in one container: the copies are
+					// handled back to back, before the waiting caller gets to run
+					var msgs []pbt.ContainerMsg
+					for k := 0; k < e.copies; k++ {
+						msgs = append(msgs, pbt.ContainerMsg{MsgID: f.peer.NextID(1), SeqNo: 0, Body: body})
+					}
+					body = pbt.Container(msgs...)
+					classes["duplicate-pong"] = true
+					classes["pong-repeated-in-container"] = true
+				}
+				if err := f.peer.Send(f.peer.NextID(1), 0, body); err != nil {
 					t.Fatalf("peer send: %v", err)
 				}
 				synctest.Wait()
@@ -174,7 +190,7 @@ func TestC43Ping(t *testing.T) {
 		nontrivial := classes["random-pong"] || classes["pong-for-other-inflight"] || classes["duplicate-pong"]
 		key := fmt.Sprintf("seed=%d plans=%v", seed, plans)
 		var cl []string
-		for _, c := range []string{"random-pong", "pong-for-other-inflight", "duplicate-pong"} {
+		for _, c := range []string{"random-pong", "pong-for-other-inflight", "duplicate-pong", "pong-repeated-in-container"} {
 			if classes[c] {
 				cl = append(cl, c)
 			}
